@@ -11,10 +11,12 @@ MANIFEST = dict(
     technique='Lean 4 proof (fun_induction over a timed state-machine model) + differential correspondence run under virtual time',
     design='5/C01',
 )
-GEN = ["Timing", "Errors", "AwaitChain"]
+GEN = ["Errors"]
+SUPP_GEN = ["AwaitChain"]
+SUPP_THEOREMS = ["c01_chain_regenerated"]
 THEOREMS = [
     "c01_result_sound", "c01_never_foreign", "c01_foreign_kinds", "c01_timeout_complete",
-    "c01_complete", "c01_single_request_written", "c01_id_type_sensitive", "c01_siblings_independent", "c01_chain_regenerated",
+    "c01_complete", "c01_single_request_written", "c01_id_type_sensitive", "c01_siblings_independent",
 ]
 RULE = (
     "timed histories over {matching result, matching error, same-id server request, other-id response, int/str "
